@@ -461,12 +461,15 @@ def rowsFor (k : Kind) : List Row := schema.filter (fun r => r.kinds.contains k)
 def wfNode (k : Kind) (ch : List VEnt) : Bool :=
   k == .other || (rowsFor k).any (fun r => matchSlots r.slots ch)
 
+/-- `Array.__init__` refuses a point list of fewer rows (`len(self.points) <= 1`) -/
+def arrayMinRows : Nat := 2
+
 mutual
-/-- the whole tree follows the schema; point arrays are not empty -/
+/-- the whole tree follows the schema; point arrays have the rows their constructor insists on -/
 def wfV : VEnt → Bool
   | .pt _ => true
   | .dir _ => true
-  | .arr vs => !vs.isEmpty
+  | .arr vs => decide (arrayMinRows ≤ vs.length)
   | .node k _ ch => wfNode k ch && wfVL ch
 def wfVL : List VEnt → Bool
   | [] => true
